@@ -42,4 +42,29 @@ func init() {
 		Trigger:   []string{"delete_checked"},
 		Assume:    commonAssume,
 		Technique: "deterministic simulation: seeded history search, per-call delete contract vs reference model and reference codec sizes"})
+	register(&PropDef{ID: "C11", Engine: "H", Profile: "index", Hooks: hooksC11, Level: "exploration", QuickS: 45, ThorS: 600,
+		Rule:      "one evaluation = one seeded history; at every Close every segment's index file is compared with the index the reference codec derives from its log file, and the observation battery taken before Close is compared with the battery after reopening copies of the directory with index files removed (none / all / each single one; thorough adds random subsets), read-write and read-only; distinct_nontrivial counts distinct state signatures of runs with at least one index-loss trial",
+		Trigger:   []string{"index_loss_trial"},
+		Assume:    commonAssume,
+		Technique: "deterministic simulation: seeded history search with index-file loss between sessions, differential observation + reference-codec derived index"})
+	register(&PropDef{ID: "C13", Engine: "H", Profile: "format", Hooks: hooksC13, Level: "exploration", QuickS: 40, ThorS: 480,
+		Rule:      "one evaluation = one seeded history (message lengths 0-300 plus 64 KiB values, times over the int64 us range, both versions, foreign segments written by the reference encoder while closed); after every call every log and index file is strictly decoded by the independent reference codec and compared with the model, Size(m) is compared with the growth of the head files and Stat with os.Stat of the directory; distinct_nontrivial counts distinct state signatures of multi-segment runs",
+		Trigger:   []string{"multi_segment"},
+		Assume:    append([]string{"the single-message encode/decode round trip is a pure function: what is decided here is that every byte reachable through histories matches the documented layout, not an enumeration of all messages"}, commonAssume...),
+		Technique: "deterministic simulation at the disk seam: independent reference codec re-reads everything the real encoders write; foreign segments for the real decoders"})
+	register(&PropDef{ID: "C15", Engine: "H", Profile: "trim", Hooks: hooksC15, Level: "exploration", QuickS: 40, ThorS: 480,
+		Rule:      "one evaluation = one seeded history on multi-segment logs with holes with Find*/Trim* calls (bounds below/inside/above the live range); each Find result must be a prefix of the live list with the bound-specific size, each Trim must remove only that prefix and (Multi) establish the bound; distinct_nontrivial counts distinct state signatures of runs with a checked Multi trim",
+		Trigger:   []string{"trim_multi_checked"},
+		Assume:    commonAssume,
+		Technique: "deterministic simulation: seeded history search, trim contract vs reference model"})
+	register(&PropDef{ID: "C16", Engine: "H", Profile: "kv", Hooks: hooksC16, Level: "exploration", QuickS: 40, ThorS: 480,
+		Rule:      "one evaluation = one seeded history over 4-5 keys (nil, empty) with tombstones and repeated/alternated CompactUpdates / CompactDeletes / Compact at cut-offs below, inside and above the message times; the key -> latest value map must be unchanged and every removed message must satisfy the removal rule of its compaction; distinct_nontrivial counts distinct state signatures of runs in which a compaction removed something",
+		Trigger:   []string{"compaction_removed"},
+		Assume:    commonAssume,
+		Technique: "deterministic simulation: seeded history search, latest-value-map invariant and removal rules vs reference model"})
+	register(&PropDef{ID: "C17", Engine: "H", Profile: "versions", Hooks: hooksC17, Level: "exploration", QuickS: 40, ThorS: 480,
+		Rule:      "one evaluation = one seeded history in which every reopen re-draws NewSegmentsVersion / KeepRewriteVersion / EagerVersionMigrate and may run offline Migrate (twice); content and the observation battery must be unchanged, and the version byte of every segment file must be the requested one (after Migrate / Eager: all; rollover-created: NewSegmentsVersion; rewritten: kept or changed as configured); distinct_nontrivial counts distinct state signatures of runs that reached a mixed-version directory or ran Migrate",
+		Trigger:   []string{"mixed_versions", "migrate_checked"},
+		Assume:    commonAssume,
+		Technique: "deterministic simulation: seeded history search over version options, differential observation + reference-codec version detection"})
 }
